@@ -658,6 +658,8 @@ pub(crate) fn allocate_registers(ops: &[Op]) -> Result<Vec<AllocatedAbstractOp>,
 
     // Step 5: Use the stack to assign a register for each virtual register.
     let pool = assign_registers(&interference_graph, &mut stack)?;
+    #[cfg(fuellabs_sway_verif)]
+    verif_check_allocation(&updated_ops, &pool);
     // Step 6: Update all instructions to use the resulting register pool.
     let mut buf = vec![];
     for op in &updated_ops {
@@ -751,6 +753,8 @@ fn spill(ops: &[Op], spills: &FxHashSet<VirtualRegister>) -> Vec<Op> {
 
     // Determine the stack slots for each spilled register.
     let spill_offsets_bytes = spill_offsets(spills, locals_size_bytes);
+    #[cfg(fuellabs_sway_verif)]
+    verif_check_spill_slots(spills, &spill_offsets_bytes, locals_size_bytes);
 
     let spills_size = (8 * spills.len()) as u32;
     let new_locals_byte_size = locals_size_bytes + spills_size;
@@ -949,6 +953,155 @@ fn spill_offsets(
         .enumerate()
         .map(|(i, reg)| (reg.clone(), (i * 8) as u32 + locals_size_bytes))
         .collect()
+}
+
+/// Independent post-allocation checker (verification seam, see `crate::verif`).
+///
+/// Recomputes liveness over the final virtual-register instruction list with its own data-flow
+/// iteration (it shares only the per-opcode use/def/successor tables with the allocator) and
+/// reports every definition point at which the defined register was given the machine register
+/// of a *different* virtual register that is live after the instruction. The one classical
+/// exception is `MOVE d s`: `d` and `s` hold the same value and may share a register.
+#[cfg(fuellabs_sway_verif)]
+fn verif_check_allocation(ops: &[Op], pool: &RegisterPool) {
+    use crate::asm_lang::{ControlFlowOp, Label};
+    if !crate::verif::check_regalloc() {
+        return;
+    }
+    let mut label_to_index: HashMap<Label, usize> = HashMap::new();
+    for (idx, op) in ops.iter().enumerate() {
+        if let Either::Right(ControlFlowOp::Label(l)) = op.opcode {
+            label_to_index.insert(l, idx);
+        }
+    }
+    let mut reg_ids: HashMap<&VirtualRegister, usize> = HashMap::new();
+    let mut regs: Vec<&VirtualRegister> = vec![];
+    for op in ops {
+        for r in op.registers() {
+            if r.is_virtual() && !reg_ids.contains_key(r) {
+                reg_ids.insert(r, regs.len());
+                regs.push(r);
+            }
+        }
+    }
+    let words = regs.len().div_ceil(64).max(1);
+    let n = ops.len();
+    let mut uses: Vec<Vec<usize>> = Vec::with_capacity(n);
+    let mut defs: Vec<Vec<usize>> = Vec::with_capacity(n);
+    let mut succs: Vec<Vec<usize>> = Vec::with_capacity(n);
+    for (i, op) in ops.iter().enumerate() {
+        uses.push(
+            op.use_registers()
+                .into_iter()
+                .filter(|r| r.is_virtual())
+                .map(|r| reg_ids[r])
+                .collect(),
+        );
+        defs.push(
+            op.def_registers()
+                .into_iter()
+                .filter(|r| r.is_virtual())
+                .map(|r| reg_ids[r])
+                .collect(),
+        );
+        succs.push(op.successors(i, ops, &label_to_index));
+    }
+    let mut live_in = vec![vec![0u64; words]; n];
+    let mut live_out = vec![vec![0u64; words]; n];
+    let mut changed = true;
+    while changed {
+        changed = false;
+        for i in (0..n).rev() {
+            let mut out = vec![0u64; words];
+            for &s in &succs[i] {
+                if s < n {
+                    for w in 0..words {
+                        out[w] |= live_in[s][w];
+                    }
+                }
+            }
+            let mut inn = out.clone();
+            for &d in &defs[i] {
+                inn[d / 64] &= !(1u64 << (d % 64));
+            }
+            for &u in &uses[i] {
+                inn[u / 64] |= 1u64 << (u % 64);
+            }
+            if out != live_out[i] || inn != live_in[i] {
+                changed = true;
+                live_out[i] = out;
+                live_in[i] = inn;
+            }
+        }
+    }
+    let machine: Vec<Option<AllocatedRegister>> =
+        regs.iter().map(|r| pool.get_register(r)).collect();
+    for (id, m) in machine.iter().enumerate() {
+        if m.is_none() {
+            crate::verif::report_regalloc(format!(
+                "virtual register {} has no machine register",
+                regs[id]
+            ));
+        }
+    }
+    let mut pairs = 0u64;
+    for i in 0..n {
+        let move_src = match &ops[i].opcode {
+            Either::Left(VirtualOp::MOVE(_, s)) if s.is_virtual() => reg_ids.get(s).copied(),
+            _ => None,
+        };
+        for &d in &defs[i] {
+            for v in 0..regs.len() {
+                if v == d || live_out[i][v / 64] & (1u64 << (v % 64)) == 0 {
+                    continue;
+                }
+                pairs += 1;
+                if Some(v) == move_src {
+                    continue;
+                }
+                if machine[d].is_some() && machine[d] == machine[v] {
+                    crate::verif::report_regalloc(format!(
+                        "op #{i} `{}` defines {} in {:?}, which also holds {} (live after the op)",
+                        ops[i], regs[d], machine[d], regs[v]
+                    ));
+                }
+            }
+        }
+    }
+    crate::verif::count_regalloc(1, pairs, 0);
+}
+
+/// Spilled registers must get pairwise distinct, word-aligned slots above the function's locals.
+#[cfg(fuellabs_sway_verif)]
+fn verif_check_spill_slots(
+    spills: &FxHashSet<VirtualRegister>,
+    offsets: &FxHashMap<VirtualRegister, u32>,
+    locals_size_bytes: u32,
+) {
+    if !crate::verif::check_regalloc() {
+        return;
+    }
+    let mut seen: BTreeSet<u32> = BTreeSet::new();
+    let mut spill_regs: Vec<_> = spills.iter().collect();
+    spill_regs.sort();
+    for reg in spill_regs {
+        match offsets.get(reg) {
+            None => crate::verif::report_regalloc(format!("spilled register {reg} has no slot")),
+            Some(off) => {
+                if *off < locals_size_bytes || off % 8 != 0 {
+                    crate::verif::report_regalloc(format!(
+                        "spill slot of {reg} at byte {off} overlaps the locals ({locals_size_bytes} bytes) or is unaligned"
+                    ));
+                }
+                if !seen.insert(*off) {
+                    crate::verif::report_regalloc(format!(
+                        "spill slot at byte {off} is shared by {reg} and another spilled register"
+                    ));
+                }
+            }
+        }
+    }
+    crate::verif::count_regalloc(0, 0, spills.len() as u64);
 }
 
 #[cfg(test)]
